@@ -3,7 +3,7 @@ Abstraction between the values of the translated line / block layer (KlogV/Gen/G
 (KlogV/Model/Lines.lean).  Core Lean only.
 -/
 import KlogV.Gen.GoTxt
-import KlogV.GoSem.Abs
+import KlogV.GoSem.AbsBase
 namespace KlogV
 open KlogV.Go
 
